@@ -203,6 +203,51 @@ func c20BigScenario(o *hx.Out, r *hx.Rng, extra int) error {
 	return nil
 }
 
+// c20BoundarySweep: fault-free single-file uploads of n = 1, 2, 3, ... records
+// with pairwise distinct labels, past the second 990-argument flush of the
+// database layer - so that for some n the LAST record of the upload is the one
+// being inserted when a forced flush fires (its record row goes out with that
+// flush, part of its label rows only with the flush at Commit), for some n the
+// flush falls exactly between two records, and for the others somewhere
+// earlier. Judged like every successful upload: every record of the file is
+// returned by upload:<id> and by the label queries, once.
+func c20BoundarySweep(o *hx.Out, r *hx.Rng, dense bool) error {
+	user := r.Pick([]string{"", "user"})
+	name := r.Pick([]string{"f.txt", ""})
+	shape, goos := r.Intn(3), r.Bool()
+	counts, _ := c19LabelCounts(c19Upload{User: user, Files: []c19File{{name, c20BigBody(shape, goos, 1)}}})
+	per := max(counts[0], 1)
+	hi := 2*248/per + 3
+	o.Count(fmt.Sprintf("sweep.labels-per-record=%d", per))
+	for n := 1; n <= hi; n++ {
+		// away from the two boundaries every third size is enough in the quick tier
+		near := false
+		for _, b := range []int{248 / per, 2 * 248 / per} {
+			if n >= b-1 && n <= b+2 {
+				near = true
+			}
+		}
+		if !dense && !near && n%3 != 0 && hi > 120 {
+			continue // (the label count is an estimate: all sizes unless that would be many)
+		}
+		in := c20Input{Kind: "upload", Light: true}
+		in.Req = c20Req{User: user, Parts: []c20Part{{Kind: "file", Name: name, Body: c20BigBody(shape, goos, n)}, {Kind: "commit"}}}
+		in.Fault = c20Fault{"none", 0}
+		_, writes, sqlKinds, sqlDuring, err := c20DryRun(in)
+		if err != nil {
+			return err
+		}
+		o.Count("sweep.upload")
+		if near {
+			o.Count("sweep.near-flush-boundary")
+		}
+		if err := c20Run(o, in, writes, sqlKinds, sqlDuring); err != nil {
+			return err
+		}
+	}
+	return nil
+}
+
 func genC20Big(o *hx.Out, r *hx.Rng, tier string) error {
 	n := 2
 	if tier == "thorough" {
